@@ -27,6 +27,13 @@ structure Mon where
   entries : List (EId × BId) := []      -- accepted dispatches that are not forwards: (event, entry bus)
   fwdRejected : Bool := false
   everTimeout : Bool := false
+  ended : List (BId × EId) := []        -- activations ended (normally or not), in order
+  dropped : List (BId × EId) := []      -- events a run loop had taken when it was stopped / cancelled: never processed
+  wiAccepted : List (Nat × List EId) := []      -- per blocked wait_until_idle caller: events accepted by its bus before the call
+  stopped : List BId := []              -- buses whose stop() has returned
+  expSince : List (Nat × List EId) := []        -- per pending expect(): events of its bus begun since the call, in order
+  expHandlers : List (Nat × List Reg) := []     -- per pending expect(): the bus's handler registry before the call
+  expNested : List Nat := []            -- expect() calls resolved by an event whose activation is nested inside that of an earlier match
   deriving Repr
 
 def insts (w : World) : List IId := List.range w.ni
@@ -130,24 +137,32 @@ def hangSigs (w : World) (m : Mon) (e : EId) : List String :=
   (if m.tripped.any (fun d => desc w d.2 e) then ["F2"] else []) ++
   (if m.aborted.any (fun d => desc w d.2 e) then ["F5"] else []) ++
   (if (events w).any (fun d => desc w d e && evicted w m d) then ["F11"] else []) ++
-  (if f4Sig w e then ["F4"] else [])
+  (if f4Sig w e then ["F4"] else []) ++
+  (if m.dropped.any (fun d => desc w d.2 e) then ["stop-drop"] else []) ++
+  (if (events w).any (fun d => desc w d e && !(w.ev d).signal &&
+        (buses w).any fun b => (w.bus b).rl == .exited && (w.bus b).queue.contains d) then ["stopped-backlog"] else [])
 
 def busHangSigs (w : World) (m : Mon) (b : BId) : List String :=
   (if m.tripped.any (fun d => d.1 == b) then ["F2"] else []) ++
-  (if m.aborted.any (fun d => d.1 == b) then ["F5"] else [])
+  (if m.aborted.any (fun d => d.1 == b) then ["F5"] else []) ++
+  (if m.dropped.any (fun d => d.1 == b) then ["stop-drop"] else []) ++
+  (if (w.bus b).rl == .exited && !(w.bus b).queue.isEmpty then ["stopped-backlog"] else [])
 
-/-- chain of executors of an instance up to the first instance that runs on a parallel bus -/
-def parRoot (w : World) : Nat → IId → Option (BId × EId × IId)
-  | 0, _ => none
+/-- the instance and the instances it runs inside of (through inline activations), innermost first -/
+def execChain (w : World) : Nat → IId → List IId
+  | 0, i => [i]
   | fuel+1, i =>
     match (w.inst i).exec with
-    | .inst j => if (w.bus (w.inst j).bus).parallel then some ((w.inst j).bus, (w.inst j).ev, j) else parRoot w fuel j
-    | _ => none
+    | .inst j => i :: execChain w fuel j
+    | _ => [i]
 
+/-- par-drain: the two instances run inside two different sibling handlers of one event on a parallel bus,
+    both of which drain the queues inline -/
 def parDrainSig (w : World) (i1 i2 : IId) : Bool :=
-  match parRoot w (w.ni + 1) i1, parRoot w (w.ni + 1) i2 with
-  | some (b1, e1, j1), some (b2, e2, j2) => b1 == b2 && e1 == e2 && j1 != j2
-  | _, _ => false
+  let c1 := execChain w (w.ni + 1) i1
+  let c2 := execChain w (w.ni + 1) i2
+  c1.any fun a => c2.any fun b =>
+    a != b && (w.inst a).bus == (w.inst b).bus && (w.inst a).ev == (w.inst b).ev && (w.bus (w.inst a).bus).parallel
 
 /-! ### C07: forwarding reachability (evaluated at rest) -/
 
@@ -200,10 +215,17 @@ def Mon.step (m : Mon) (w : World) (l : Label) (w' : World) : Mon × List Vio :=
          (if after != want then v "C09" "childCount" [] s!"event {e} under instance {i}: {after} ≠ {want}" else []) ++ late i
        | _ => [])
     (m, vs)
-  | .peRecTrip _ b e => ({ m with tripped := m.tripped ++ [(b, e)] }, [])
-  | .peAbort _ b e => ({ m with aborted := m.aborted ++ [(b, e)] }, [])
+  | .peRecTrip _ b e => ({ m with tripped := m.tripped ++ [(b, e)], ended := m.ended ++ [(b, e)] }, [])
+  | .peAbort p b e =>
+    (match p with
+     | .rl _ => ({ m with dropped := m.dropped ++ [(b, e)], ended := m.ended ++ [(b, e)] }, [])   -- run loop cancelled by stop()
+     | _ => ({ m with aborted := m.aborted ++ [(b, e)], ended := m.ended ++ [(b, e)] }, []))
   | .peBegin p b e =>
-    ({ m with begun := m.begun ++ [(b, e)] },
+    ({ m with begun := m.begun ++ [(b, e)],
+              expSince := m.expSince.map fun (x, l) =>
+                match w.waiter x with
+                | .expecting b' _ _ _ _ => if b' == b then (x, l ++ [e]) else (x, l)
+                | _ => (x, l) },
      if !C02.beginOrder w p b e then v "C02" "beginOrder" ["C02-inv"] s!"bus {b}: {e} begins inline while the run loop holds an earlier event" else [])
   | .hSched _ i b e k =>
     (m, if !C01.once w b e k then v "C01" "twice" [] s!"instance {i}: handler {k} of bus {b} scheduled again for event {e}" else [])
@@ -223,8 +245,23 @@ def Mon.step (m : Mon) (w : World) (l : Label) (w' : World) : Mon × List Vio :=
           (if (insts w').any (fun i1 => i1 != j && (w'.inst i1).bus == (w'.inst j).bus && (w'.inst i1).st == .running &&
                  parDrainSig w' i1 j) then ["par-drain"] else [])
           s!"instance {j} starts on a serial bus while a handler of another event of that bus is executing" else []
-    (m, vs5 ++ vs6 ++ vs2)
-  | .hEnd i out => (m, if out != .cancelled then late i else [])
+    let vs16 := if m.stopped.contains (w'.inst j).bus then
+        v "C16" "startAfterStop" (match (w'.inst j).exec with | .inst _ => ["stop-drain"] | _ => [])
+          s!"instance {j} of bus {(w'.inst j).bus} starts after stop() of that bus returned" else []
+    (m, vs5 ++ vs6 ++ vs2 ++ vs16)
+  | .hEnd i out =>
+    let m := match (w.inst i).kind with
+      | .expect x pred =>
+        if expectOpen w x (w.inst i).hid && expectMatch pred (w.inst i).ev == some true then
+          let since := ((m.expSince.find? (·.1 == x)).map (·.2)).getD []
+          let key := match w.waiter x with | .expecting _ key _ _ _ => key | _ => 0
+          let earlier := since.takeWhile (· != (w.inst i).ev)
+          if earlier.any (fun e => (key == 0 || (w.ev e).etype == key) && expectMatch pred e == some true &&
+                (m.ended.filter (· == ((w.inst i).bus, e))).length < (m.begun.filter (· == ((w.inst i).bus, e))).length)
+          then { m with expNested := m.expNested ++ [x] } else m
+        else m
+      | _ => m
+    (m, if out != .cancelled then late i else [])
   | .hFinish i r =>
     let I := w.inst i
     let m := if r == .errTimeout then { m with everTimeout := true } else m
@@ -239,8 +276,11 @@ def Mon.step (m : Mon) (w : World) (l : Label) (w' : World) : Mon × List Vio :=
                     (w'.ev I.ev).children.contains c && (w'.ev c).results.any (·.status == .pending)) then
                  v "C10" "childPending" [] s!"instance {i}: a child result stays pending after the timeout" else [])
     (m, vs)
-  | .peEnd _ b e =>
-    (m, if !C13.bound w' b then v "C13" "bound" [] s!"bus {b} history {(w'.bus b).hist.length} after processing {e}" else [])
+  | .peEnd p b e =>
+    ({ m with ended := m.ended ++ [(b, e)] },
+     (if !C13.bound w' b then v "C13" "bound" [] s!"bus {b} history {(w'.bus b).hist.length} after processing {e}" else []) ++
+     (if (w.bus b).wal && (match w.act p with | some A => !A.walDone | none => true) then
+        v "C17" "noWalLine" [] s!"bus {b} finished event {e} without attempting its WAL line" else []))
   | .awaitBegin i _ => (m, late i)
   | .awaitEnd i c =>
     (m, if !treeDone w c then
@@ -251,6 +291,66 @@ def Mon.step (m : Mon) (w : World) (l : Label) (w' : World) : Mon × List Vio :=
             s!"instance {i}: awaited event {c} returned incomplete" else [])
   | .xAwaitEnd e =>
     (m, if !treeDone w e then v "C03" "returnNotDone" (if f4Sig w e then ["F4"] else []) s!"event {e}" else [])
+  | .readBus i got =>
+    (m, if got != some (w.inst i).bus then
+          v "C09" "eventBus"
+            (if (w.ev (w.inst i).ev).path.contains (w.inst i).bus && (w.ev (w.inst i).ev).path.getLast? != some (w.inst i).bus then ["F9"] else [])
+            s!"instance {i} on bus {(w.inst i).bus} read event_bus = {got}" else [])
+  | .wiBegin x b =>
+    ({ m with wiAccepted := (m.wiAccepted.filter (·.1 != x)) ++ [(x, (m.accepted.filter (·.1 == b)).map (·.2))] }, [])
+  | .wiEnd x =>
+    match w.waiter x with
+    | .check b =>
+      let acc := ((m.wiAccepted.find? (·.1 == x)).map (·.2)).getD []
+      let unfinished := acc.filter fun e =>
+        (m.ended.filter (· == (b, e))).length < ((m.accepted.filter (· == (b, e))).length.min 1)
+      (m,
+       (if !unfinished.isEmpty then
+          v "C15" "returnedBeforeAcceptedFinished" (busHangSigs w m b) s!"bus {b}: events {unfinished} accepted before the call have not finished there" else []) ++
+       (if !(w.bus b).queue.isEmpty then
+          v "C15" "returnedWithQueued"
+            (if (w.bus b).queue.all (fun e => (w.ev e).status == .completed) then ["fwd-queued"] else [])
+            s!"bus {b}: wait_until_idle returned with {(w.bus b).queue} still queued" else []))
+    | _ => (m, [])
+  | .stopEnd x =>
+    match w.waiter x with
+    | .stopping b d _ =>
+      ({ m with stopped := m.stopped ++ [b] },
+       if w.now > d then v "C16" "stopLate" [] s!"stop() of bus {b} returned at {w.now}, after its grace deadline {d}" else [])
+    | _ => (m, [])
+  | .rlCreate b => ({ m with stopped := m.stopped.filter (· != b) }, [])
+  | .rlDropExit b | .rlCancelled b =>
+    (match (w.bus b).rl with
+     | .took e => ({ m with dropped := m.dropped ++ [(b, e)] }, [])
+     | _ => (m, []))
+  | .expectBegin x b _ _ _ _ =>
+    ({ m with expNested := m.expNested.filter (· != x), expSince := (m.expSince.filter (·.1 != x)) ++ [(x, [])],
+              expHandlers := (m.expHandlers.filter (·.1 != x)) ++ [(x, (w.bus b).handlers)] }, [])
+  | .expectEnd x got =>
+    match w.waiter x with
+    | .expecting b key _ _ _ =>
+      let since := ((m.expSince.find? (·.1 == x)).map (·.2)).getD []
+      let pred := match (w.bus b).handlers.find? (fun r => match r.kind with | .expect x' _ => x' == x | _ => false) with
+        | some r => (match r.kind with | .expect _ p => p | _ => 0)
+        | none => 0
+      let cands := since.filter fun e => (key == 0 || (w.ev e).etype == key) && expectMatch pred e == some true
+      let before := ((m.expHandlers.find? (·.1 == x)).map (·.2)).getD []
+      (m,
+       (match got with
+        | some e =>
+          (if !((key == 0 || (w.ev e).etype == key) && expectMatch pred e == some true) then
+             v "C18" "nonMatching" [] s!"expect() of task {x} returned event {e}, which does not match" else []) ++
+          (if cands.head? != some e then
+             v "C18" "notFirst" (if m.expNested.contains x then ["F0"] else [])
+               s!"expect() of task {x} returned {e}; first match in processing order is {cands.head?}" else [])
+        | none => []) ++
+       (let perm (l : List Reg) := l.filter fun r => match r.kind with | .expect _ _ => false | _ => true
+        if perm (w'.bus b).handlers != perm before ||
+           (w'.bus b).handlers.any (fun r => match r.kind with | .expect x' _ => x' == x | _ => false) then
+          v "C18" "registryNotRestored" [] s!"bus {b}: after expect() of task {x} its temporary handler is still registered or other handlers changed" else []))
+    | _ => (m, [])
+  | .walWrite _ b e ok =>
+    (m, if ok && (w'.bus b).walLines.getLast? != some e then v "C17" "walLine" [] s!"bus {b} event {e}" else [])
   | _ => (m, [])
   -- C08: completion is stable (status and signal are functions of the results and of monotone flags,
   -- so "nothing changes" is "the result list is the one seen at first completion")
@@ -282,16 +382,26 @@ def isRest (w : World) : Bool :=
 def Mon.rest (m : Mon) (w : World) : List Vio :=
   let v (prop clause : String) (sigs : List String) (detail : String) : List Vio := [{ prop, clause, sigs, detail }]
   let acc := m.accepted.eraseDups
+  -- events abandoned because their bus was stopped / its run loop cancelled are outside these clauses
+  let stopRelated (l : List String) : Bool := l.contains "stop-drop" || l.contains "stopped-backlog"
   (acc.flatMap fun (b, e) =>
-    (if !C01.noSkip w b e then v "C01" "skipped" (hangSigs w m e ++ busHangSigs w m b) s!"bus {b} event {e}" else []) ++
-    (if treeDone w e && !(w.ev e).signal then v "C03" "doneNotSignalled" (hangSigs w m e) s!"event {e}" else []) ++
+    let hs := hangSigs w m e
+    let bs := busHangSigs w m b
+    if stopRelated (hs ++ bs) then [] else
+    (if !C01.noSkip w b e then v "C01" "skipped" (hs ++ bs) s!"bus {b} event {e}" else []) ++
+    (if treeDone w e && !(w.ev e).signal then v "C03" "doneNotSignalled" hs s!"event {e}" else []) ++
     (if m.everTimeout && !((w.ev e).status == .completed && (w.ev e).signal) then
-       v "C10" "notCompletedAfterTimeout" (hangSigs w m e) s!"event {e}" else []) ++
-    (if !(w.ev e).signal && (hangSigs w m e).isEmpty then v "C03" "neverCompleted" [] s!"event {e}" else [])) ++
+       v "C10" "notCompletedAfterTimeout" hs s!"event {e}" else []) ++
+    (if !(w.ev e).signal && hs.isEmpty then v "C03" "neverCompleted" [] s!"event {e}" else [])) ++
   ((insts w).flatMap fun i =>
     if isAwaiting (w.inst i).st then v "C04" "deadlock" [] s!"instance {i} still awaiting at rest" else []) ++
+  ((List.range w.nx).flatMap fun x =>
+    match w.waiter x with
+    | .join b _ _ | .idleWait b _ | .check b => v "C15" "hang" (busHangSigs w m b) s!"task {x}: wait_until_idle of bus {b} still blocked at rest"
+    | .stopping b _ _ => v "C16" "stopHang" [] s!"task {x}: stop() of bus {b} still blocked at rest"
+    | _ => []) ++
   ((buses w).flatMap fun b =>
-    if (w.bus b).created && (w.bus b).unfinished != 0 then
+    if (w.bus b).created && (w.bus b).unfinished != 0 && !stopRelated (busHangSigs w m b) then
       v "C15" "unfinishedAtRest" (busHangSigs w m b) s!"bus {b} unfinished {(w.bus b).unfinished}" else []) ++
   -- C07: each event's path is exactly the set of buses reachable through forwarding from its first bus, each begun once
   ((events w).flatMap fun e =>
@@ -303,11 +413,12 @@ def Mon.rest (m : Mon) (w : World) : List Vio :=
       let _ := b0
       let r := reach w (w.ev e).etype (w.nb * w.nb + 1) roots []
       let arrival := (m.accepted.filter (·.2 == e)).map (·.1)
+      if stopRelated (hangSigs w m e) then [] else
       (if r.mergeSort != (w.ev e).path.mergeSort then
          v "C07" "pathNotReach" (hangSigs w m e) s!"event {e}: path {(w.ev e).path}, reachable {r}" else []) ++
       (if arrival != (w.ev e).path then v "C07" "pathNotArrivalOrder" [] s!"event {e}: path {(w.ev e).path}, arrivals {arrival}" else []) ++
       ((w.ev e).path.flatMap fun b =>
-        if (m.begun.filter (· == (b, e))).length != 1 then
+        if (m.begun.filter (· == (b, e))).length != 1 && !stopRelated (busHangSigs w m b) then
           v "C07" "notOncePerBus" (hangSigs w m e ++ busHangSigs w m b) s!"event {e} bus {b}: {(m.begun.filter (· == (b, e))).length} activations" else []))
 
 end Bubus
